@@ -163,10 +163,23 @@ pub fn gen_device(t: &mut Tape, cfg: &GenCfg, ordinal: usize) -> DevSpec {
         for i in 0..extra {
             s.push(b'a' + ((i * 5 + ordinal) % 26) as u8);
         }
+        // A name that exactly fills (or just fits) the 64 byte name capacity.
+        if crate::tape::gen() >= 2 && t.flag(12, 100, "name_boundary") {
+            let target = t.pick(&[64usize, 63], "name_len_at");
+            while s.len() < target {
+                s.push(b'a' + ((s.len() * 3 + ordinal) % 26) as u8);
+            }
+        }
         if t.flag(10, 100, "name_hi") {
+            if s.len() >= 64 {
+                s.pop();
+            }
             s.push(0xb5);
         }
         if t.flag(10, 100, "name_nul") {
+            if s.len() >= 64 {
+                s.pop();
+            }
             s.push(0);
         }
         Some(s)
